@@ -59,6 +59,23 @@ BUILTIN_TYPES = {"str": str, "int": int, "float": float, "list": list,
                  "dict": dict, "tuple": tuple, "bool": bool, "set": set}
 
 
+def _next(it, *default):
+    if hasattr(it, "__next__"):
+        return next(it, *default)
+    return next(iter(it), *default)
+
+
+# builtins applied to concrete (non-abstract) values exactly as Python does
+PURE_BUILTINS = {
+    "abs": abs, "all": all, "any": any, "bool": bool, "divmod": divmod,
+    "enumerate": enumerate, "filter": filter, "frozenset": frozenset,
+    "iter": iter, "map": map, "max": max, "min": min, "next": _next,
+    "ord": ord, "chr": chr, "range": range, "reversed": reversed,
+    "round": round, "sorted": sorted, "sum": sum, "zip": zip,
+    "callable": callable,
+}
+
+
 class Evaluator:
     def __init__(self, repo=None, module=None, env=None, atoms=None,
                  hooks=None, depth=0, shared=None):
@@ -119,7 +136,9 @@ class Evaluator:
                 return ent
             if isinstance(ent, Const):
                 return self.const(ent)
-            if node.id in BUILTIN_TYPES:
+            if node.id in BUILTIN_TYPES or node.id in (
+                    "len", "repr", "sorted", "min", "max", "sum", "abs",
+                    "any", "all", "id", "bool", "frozenset", "bytes"):
                 return External("builtins." + node.id)
             raise Unsupported("table evaluator: free name %s" % node.id)
         if isinstance(node, ast.Tuple):
@@ -127,8 +146,13 @@ class Evaluator:
         if isinstance(node, ast.List):
             return [self.ev(e) for e in node.elts]
         if isinstance(node, ast.Dict):
-            return {self.ev(k): self.ev(v)
-                    for k, v in zip(node.keys, node.values)}
+            out = {}
+            for k, v in zip(node.keys, node.values):
+                if k is None:
+                    out.update(self.ev(v))
+                else:
+                    out[self.ev(k)] = self.ev(v)
+            return out
         if isinstance(node, ast.BoolOp):
             if isinstance(node.op, ast.And):
                 v = True
@@ -165,6 +189,9 @@ class Evaluator:
                 raise Unsupported("table evaluator: subscript of %r" % v)
             try:
                 return v[i]
+            except (KeyError, IndexError) as e:
+                # what Python raises for a missing key / index
+                raise Raised("builtins." + type(e).__name__)
             except Exception:
                 raise Unsupported("table evaluator: subscript %s" %
                                   unparse(node))
@@ -191,6 +218,12 @@ class Evaluator:
                     return a // b
                 if isinstance(node.op, ast.Mod):
                     return a % b        # also printf-style formatting
+                if isinstance(node.op, ast.BitOr) and \
+                        isinstance(a, (dict, set, frozenset)):
+                    return a | b
+                if isinstance(node.op, ast.BitAnd) and \
+                        isinstance(a, (set, frozenset)):
+                    return a & b
                 if isinstance(node.op, ast.Div):
                     return a / b
                 if isinstance(node.op, ast.Pow):
@@ -220,24 +253,125 @@ class Evaluator:
             out = []
             self.comp(node.generators, 0, node.elt, out)
             return set(out) if isinstance(node, ast.SetComp) else out
+        if isinstance(node, ast.DictComp):
+            out = []
+            self.comp(node.generators, 0, (node.key, node.value), out)
+            return dict(out)
+        if isinstance(node, ast.Set):
+            return set(self.ev(e) for e in node.elts)
+        if isinstance(node, ast.Lambda):
+            return Closure(node, self)
+        if isinstance(node, ast.NamedExpr):
+            v = self.ev(node.value)
+            self.bind(node.target, v)
+            return v
+        if isinstance(node, ast.Starred):
+            return self.ev(node.value)
         raise Unsupported("table evaluator: expression %s" %
                           unparse(node)[:80])
 
+    def match_pattern(self, pat, subject):
+        """structural pattern matching on concrete subjects (value, or,
+        wildcard / capture, singleton, sequence and class-free patterns)"""
+        if isinstance(pat, ast.MatchValue):
+            v = self.ev(pat.value)
+            r = None
+            if self.hooks is not None:
+                r = self.hooks.eq(self, subject, v)
+                if r is NotImplemented:
+                    r = None
+            if r is None:
+                r = self.class_eq(subject, v)
+                if r is NotImplemented:
+                    r = subject is v if isinstance(subject, Abs) or \
+                        isinstance(v, Abs) else subject == v
+            return bool(r)
+        if isinstance(pat, ast.MatchSingleton):
+            return subject is pat.value
+        if isinstance(pat, ast.MatchOr):
+            return any(self.match_pattern(p, subject) for p in pat.patterns)
+        if isinstance(pat, ast.MatchAs):
+            if pat.pattern is not None and \
+                    not self.match_pattern(pat.pattern, subject):
+                return False
+            if pat.name is not None:
+                self.env[pat.name] = subject
+            return True
+        if isinstance(pat, ast.MatchSequence) and \
+                isinstance(subject, (list, tuple)):
+            pats = pat.patterns
+            star = [i for i, p in enumerate(pats)
+                    if isinstance(p, ast.MatchStar)]
+            if not star:
+                return len(pats) == len(subject) and all(
+                    self.match_pattern(p, x) for p, x in zip(pats, subject))
+            k = star[0]
+            after = len(pats) - k - 1
+            if len(subject) < len(pats) - 1:
+                return False
+            if pats[k].name:
+                self.env[pats[k].name] = list(
+                    subject[k:len(subject) - after])
+            return all(self.match_pattern(p, x) for p, x in
+                       zip(pats[:k], subject[:k])) and all(
+                self.match_pattern(p, x) for p, x in
+                zip(pats[k + 1:], subject[len(subject) - after:]))
+        if isinstance(pat, ast.MatchClass):
+            if not self.isinstance(subject, pat.cls):
+                return False
+            if pat.patterns:
+                raise Unsupported("table evaluator: positional class "
+                                  "pattern")
+            for attr, sub in zip(pat.kwd_attrs, pat.kwd_patterns):
+                try:
+                    v = self.getattr(subject, attr)
+                except Unsupported:
+                    return False
+                if not self.match_pattern(sub, v):
+                    return False
+            return True
+        raise Unsupported("table evaluator: match pattern %s" %
+                          type(pat).__name__)
+
+    def bind(self, target, value):
+        """assignment to a name or to a (nested, possibly starred) tuple"""
+        if isinstance(target, ast.Name):
+            self.env[target.id] = value
+            return
+        if isinstance(target, (ast.Tuple, ast.List)):
+            if isinstance(value, Abs):
+                raise Unsupported("table evaluator: unpacking an abstract "
+                                  "value")
+            vals = list(value)
+            elts = target.elts
+            star = [i for i, e in enumerate(elts)
+                    if isinstance(e, ast.Starred)]
+            if star:
+                k = star[0]
+                after = len(elts) - k - 1
+                self.bind(elts[k].value, vals[k:len(vals) - after])
+                for e, x in zip(elts[:k], vals[:k]):
+                    self.bind(e, x)
+                for e, x in zip(elts[k + 1:], vals[len(vals) - after:]):
+                    self.bind(e, x)
+                return
+            if len(vals) != len(elts):
+                raise Raised("builtins.ValueError")
+            for e, x in zip(elts, vals):
+                self.bind(e, x)
+            return
+        raise Unsupported("table evaluator: store %s" % unparse(target))
+
     def comp(self, gens, i, elt, out):
         if i == len(gens):
-            out.append(self.ev(elt))
+            out.append(self.ev(elt) if not isinstance(elt, tuple) else
+                       (self.ev(elt[0]), self.ev(elt[1])))
             return
         g = gens[i]
         it = self.iterable(self.ev(g.iter))
         saved = dict(self.env)
         for v in it:
-            if isinstance(g.target, ast.Name):
-                self.env[g.target.id] = v
-            elif isinstance(g.target, ast.Tuple):
-                for e, x in zip(g.target.elts, v):
-                    self.env[e.id] = x
-            else:
-                raise Unsupported("table evaluator: comprehension target")
+            self.bind(g.target, v)
             if all(self.truth(self.ev(c)) for c in g.ifs):
                 self.comp(gens, i + 1, elt, out)
         self.env = saved
@@ -403,8 +537,27 @@ class Evaluator:
                 if hit is not None:
                     from .model import class_const
                     return class_const(self.repo, hit[0], hit[1])
+            if self.shared.get("attr_try", 0) > 0:
+                # inside `try: ... except AttributeError`: the attribute is
+                # absent from this abstract object and from its class
+                raise Raised("builtins.AttributeError")
             raise Unsupported("table evaluator: attribute %s of %r is not "
                               "declared by the rule" % (attr, base))
+        if isinstance(base, Module):
+            ent = self.repo.module_attr(base.name, attr)
+            if isinstance(ent, (ClassInfo, FuncInfo, External, Module)):
+                return ent
+            if isinstance(ent, Const):
+                return self.const(ent)
+        if base is None or type(base) in (str, int, float, bool, list, dict,
+                                          tuple, set, frozenset, bytes) or \
+                isinstance(base, (_re.Match, _re.Pattern)):
+            if hasattr(base, attr):
+                v = getattr(base, attr)
+                if callable(v):
+                    return ("pybound", base, attr)
+                return v
+            raise Raised("builtins.AttributeError")
         if isinstance(base, ClassInfo):
             if self.hooks is not None:
                 r = self.hooks.class_attr(self, base, attr)
@@ -462,7 +615,7 @@ class Evaluator:
                 return {"list": list, "tuple": tuple, "set": set,
                         "dict": dict}[f.id]()
             if f.id in ("list", "tuple", "set", "sorted") and \
-                    len(node.args) == 1:
+                    len(node.args) == 1 and not node.keywords:
                 v = self.ev(node.args[0])
                 if not isinstance(v, Abs):
                     return {"list": list, "tuple": tuple, "set": set,
@@ -477,6 +630,40 @@ class Evaluator:
                          "sum": sum, "max": max, "min": min,
                          "dict": dict}[f.id](*vals)
                     if f.id in ("reversed", "enumerate", "zip", "range"):
+                        return list(r)
+                    return r
+            if f.id in PURE_BUILTINS:
+                vals = [self.ev(a) for a in node.args]
+                kws = {k.arg: self.ev(k.value) for k in node.keywords
+                       if k.arg is not None}
+                if not any(isinstance(v, Abs) for v in vals) and \
+                        all(k in ("default", "key", "reverse", "start")
+                            for k in kws):
+                    if "key" in kws and isinstance(kws["key"], Closure):
+                        c = kws["key"]
+                        kws["key"] = lambda x, c=c: c.call(self, [x], {})
+                    if f.id in ("map", "filter") and vals and \
+                            isinstance(vals[0], External) and \
+                            vals[0].name.startswith("builtins."):
+                        import builtins as _b
+                        vals[0] = getattr(_b, vals[0].name.split(".")[1])
+                    if f.id in ("map", "filter") and vals and \
+                            isinstance(vals[0], Closure):
+                        c = vals[0]
+                        vals[0] = lambda *x, c=c: c.call(self, list(x), {})
+                    elif f.id in ("map", "filter") and vals and \
+                            not callable(vals[0]) and vals[0] is not None:
+                        raise Unsupported("table evaluator: %s over a "
+                                          "library function" % f.id)
+                    try:
+                        r = PURE_BUILTINS[f.id](*vals, **kws)
+                    except StopIteration:
+                        raise Raised("builtins.StopIteration")
+                    except (TypeError, ValueError, IndexError, KeyError,
+                            ZeroDivisionError) as e:
+                        raise Raised("builtins." + type(e).__name__)
+                    if f.id in ("reversed", "enumerate", "zip", "range",
+                                "map", "filter"):
                         return list(r)
                     return r
             if f.id == "id" and len(node.args) == 1:
@@ -513,14 +700,49 @@ class Evaluator:
                     if o.cls is not None:
                         return o.cls.find_attr(a) is not None or \
                             o.cls.find_method(a) is not None
+        if dotted(f) in ("re.match", "re.search", "re.fullmatch", "re.sub",
+                         "re.split", "re.findall") and not node.keywords \
+                and self.hooks is None:
+            vals = [self.ev(a) for a in node.args]
+            if all(isinstance(v, str) for v in vals):
+                return getattr(_re, dotted(f).split(".")[1])(*vals)
+        if isinstance(f, ast.Name) and f.id == "object" and \
+                not node.args and "object" not in self.env:
+            return object()
+        if dotted(f) in ("attrgetter", "operator.attrgetter") and \
+                len(node.args) == 1 and not node.keywords:
+            path = self.ev(node.args[0])
+            if isinstance(path, str):
+                def getter(obj, path=path):
+                    for a in path.split("."):
+                        obj = self.getattr(obj, a)
+                    return obj
+                return ("pyfunc", getter)
         if dotted(f) == "re.compile" and len(node.args) == 1 and \
                 not node.keywords:
             pat = self.ev(node.args[0])
             if isinstance(pat, str):
                 return _re.compile(pat)
-        args = [self.ev(a) for a in node.args]
-        kwargs = {k.arg: self.ev(k.value) for k in node.keywords
-                  if k.arg is not None}
+        args = []
+        for a in node.args:
+            if isinstance(a, ast.Starred):
+                v = self.ev(a.value)
+                if isinstance(v, Abs):
+                    raise Unsupported("table evaluator: *%s" %
+                                      unparse(a.value))
+                args.extend(list(v))
+            else:
+                args.append(self.ev(a))
+        kwargs = {}
+        for k in node.keywords:
+            if k.arg is not None:
+                kwargs[k.arg] = self.ev(k.value)
+            else:
+                v = self.ev(k.value)
+                if not isinstance(v, dict):
+                    raise Unsupported("table evaluator: **%s" %
+                                      unparse(k.value))
+                kwargs.update(v)
         # method call on abstract object
         if isinstance(f, ast.Attribute):
             ent = self.resolve(f)
@@ -621,6 +843,16 @@ class Evaluator:
                         raise Raised("builtins.ValueError")
         if isinstance(target, Closure):
             return target.call(self, args, kwargs)
+        if isinstance(target, tuple) and len(target) == 2 and \
+                target[0] == "pyfunc":
+            return target[1](*args, **kwargs)
+        if isinstance(target, tuple) and len(target) == 3 and \
+                target[0] == "pybound":
+            r = self.builtin_method(target[1], target[2], args)
+            if r is NotImplemented:
+                raise Unsupported("table evaluator: call of %s.%s" % (
+                    type(target[1]).__name__, target[2]))
+            return r
         if isinstance(target, tuple) and target and target[0] == "bound":
             return self.inline(target[1], [target[2]] + args, kwargs)
         if isinstance(target, FuncInfo):
@@ -642,9 +874,38 @@ class Evaluator:
         raise Unsupported("table evaluator: call %s" % unparse(node)[:80])
 
     def builtin_method(self, base, name, args):
+        if isinstance(base, _re.Match) and name in (
+                "group", "groups", "groupdict", "start", "end", "span") and \
+                not any(isinstance(a, Abs) for a in args):
+            try:
+                return getattr(base, name)(*args)
+            except (IndexError, TypeError) as e:
+                raise Raised("builtins." + type(e).__name__)
         if isinstance(base, str) and name in ("upper", "lower", "isdigit",
                                               "startswith", "endswith"):
             return getattr(base, name)(*args)
+        if isinstance(base, str) and hasattr(str, name) and \
+                not name.startswith("_") and name not in ("format",
+                                                          "format_map") and \
+                not any(isinstance(a, (Abs, Closure)) for a in args):
+            # any other str method on concrete arguments, as Python does it
+            try:
+                r = getattr(base, name)(*args)
+            except (TypeError, ValueError, IndexError) as e:
+                raise Raised("builtins." + type(e).__name__)
+            return list(r) if name in ("splitlines",) else r
+        if isinstance(base, (list, tuple, set, frozenset, dict, bytes)) and \
+                hasattr(type(base), name) and not name.startswith("_") and \
+                name not in ("sort",) and \
+                not any(isinstance(a, Closure) for a in args):
+            try:
+                r = getattr(base, name)(*args)
+            except (TypeError, ValueError, IndexError, KeyError) as e:
+                raise Raised("builtins." + type(e).__name__)
+            if isinstance(r, (type({}.keys()), type({}.values()),
+                              type({}.items()))):
+                return list(r)
+            return r
         if isinstance(base, dict) and name in ("get", "keys", "values",
                                                "items"):
             r = getattr(base, name)(*args)
@@ -794,16 +1055,24 @@ class Evaluator:
             else:
                 self.block(st.orelse)
             return
+        if isinstance(st, ast.Assign) and len(st.targets) > 1 and all(
+                isinstance(n, (ast.Name, ast.Tuple, ast.List, ast.Starred,
+                               ast.Store, ast.Load))
+                for t in st.targets for n in ast.walk(t)):
+            v = self.ev(st.value)
+            for t in st.targets:
+                self.bind(t, v)
+            return
         if isinstance(st, ast.Assign) and len(st.targets) == 1:
             t = st.targets[0]
             if isinstance(t, ast.Name):
                 self.env[t.id] = self.ev(st.value)
                 return
-            if isinstance(t, ast.Tuple) and \
-                    all(isinstance(e, ast.Name) for e in t.elts):
-                v = self.ev(st.value)
-                for e, x in zip(t.elts, v):
-                    self.env[e.id] = x
+            if isinstance(t, (ast.Tuple, ast.List)) and all(
+                    isinstance(n, (ast.Name, ast.Tuple, ast.List, ast.Starred,
+                                   ast.Store, ast.Load))
+                    for n in ast.walk(t)):
+                self.bind(t, self.ev(st.value))
                 return
             value = self.ev(st.value)
             if self.hooks is not None:
@@ -875,25 +1144,24 @@ class Evaluator:
         if isinstance(st, ast.FunctionDef):
             self.env[st.name] = Closure(st, self)
             return
-        if isinstance(st, ast.For) and not st.orelse:
+        if isinstance(st, ast.For):
             it = self.iterable(self.ev(st.iter))
-            for v in it:
-                if isinstance(st.target, ast.Name):
-                    self.env[st.target.id] = v
-                elif isinstance(st.target, ast.Tuple):
-                    for e, x in zip(st.target.elts, v):
-                        self.env[e.id] = x
-                else:
-                    raise Unsupported("table evaluator: loop target")
+            broke = False
+            for v in list(it) if isinstance(it, (set, dict)) else it:
+                self.bind(st.target, v)
                 try:
                     self.block(st.body)
                 except _Break:
+                    broke = True
                     break
                 except _Continue:
                     continue
+            if not broke and st.orelse:
+                self.block(st.orelse)
             return
-        if isinstance(st, ast.While) and not st.orelse:
+        if isinstance(st, ast.While):
             n = 0
+            broke = False
             while self.truth(self.ev(st.test)):
                 n += 1
                 if n > 5000:
@@ -901,10 +1169,52 @@ class Evaluator:
                 try:
                     self.block(st.body)
                 except _Break:
+                    broke = True
                     break
                 except _Continue:
                     continue
+            if not broke and st.orelse:
+                self.block(st.orelse)
             return
+        if isinstance(st, ast.Delete):
+            for t in st.targets:
+                if isinstance(t, ast.Name):
+                    self.env.pop(t.id, None)
+                elif isinstance(t, ast.Subscript):
+                    base = self.ev(t.value)
+                    if isinstance(base, (dict, list)) and \
+                            not isinstance(t.slice, ast.Slice):
+                        k = self.ev(t.slice)
+                        try:
+                            del base[k]
+                        except KeyError:
+                            raise Raised("builtins.KeyError")
+                        except IndexError:
+                            raise Raised("builtins.IndexError")
+                    else:
+                        raise Unsupported("table evaluator: %s" % unparse(st))
+                elif isinstance(t, ast.Attribute):
+                    base = self.ev(t.value)
+                    if isinstance(base, Abs):
+                        self.events.append(("store", base.label, t.attr,
+                                            "<deleted>"))
+                        base.attrs.pop(t.attr, None)
+                    else:
+                        raise Unsupported("table evaluator: %s" % unparse(st))
+            return
+        if isinstance(st, ast.Match):
+            subject = self.ev(st.subject)
+            for case in st.cases:
+                saved = dict(self.env)
+                if self.match_pattern(case.pattern, subject) and (
+                        case.guard is None or
+                        self.truth(self.ev(case.guard))):
+                    self.block(case.body)
+                    return
+                self.env = saved
+            return
+        if isinstance(st, ast.With):
+            raise Unsupported("table evaluator: with statement")
         if isinstance(st, ast.Break):
             raise _Break()
         if isinstance(st, ast.Continue):
@@ -914,9 +1224,23 @@ class Evaluator:
                 r = self.hooks.try_stmt(self, st)
                 if r is not NotImplemented:
                     return
+            catches_attr = any(
+                h.type is None or (dotted(h.type) or "").split(".")[-1] in (
+                    "AttributeError", "Exception", "BaseException")
+                or (isinstance(h.type, ast.Tuple) and any(
+                    (dotted(e) or "").split(".")[-1] == "AttributeError"
+                    for e in h.type.elts))
+                for h in st.handlers)
             try:
                 try:
-                    self.block(st.body)
+                    if catches_attr:
+                        self.shared["attr_try"] = \
+                            self.shared.get("attr_try", 0) + 1
+                    try:
+                        self.block(st.body)
+                    finally:
+                        if catches_attr:
+                            self.shared["attr_try"] -= 1
                 except Raised as r:
                     for h in st.handlers:
                         if self.handler_matches(h, r.cls):
@@ -954,13 +1278,34 @@ class Closure:
 
     def call(self, ev, args, kwargs):
         env = dict(self.outer.env)
-        names = [a.arg for a in self.node.args.args]
+        a = self.node.args
+        names = [x.arg for x in a.posonlyargs + a.args]
+        defaults = dict(zip(names[len(names) - len(a.defaults):], a.defaults))
         for i, n in enumerate(names):
             if i < len(args):
                 env[n] = args[i]
             elif n in kwargs:
                 env[n] = kwargs[n]
+            elif n in defaults:
+                env[n] = self.outer.ev(defaults[n])
+        if a.vararg:
+            env[a.vararg.arg] = tuple(args[len(names):])
+        if a.kwarg:
+            env[a.kwarg.arg] = {k: v for k, v in kwargs.items()
+                                if k not in names and
+                                k not in [x.arg for x in a.kwonlyargs]}
+        for x, d in zip(a.kwonlyargs, a.kw_defaults):
+            if x.arg in kwargs:
+                env[x.arg] = kwargs[x.arg]
+            elif d is not None:
+                env[x.arg] = self.outer.ev(d)
         env.pop("$yield", None)
+        if isinstance(self.node, ast.Lambda):
+            sub = Evaluator(ev.repo, self.outer.module, env, None, ev.hooks,
+                            ev.depth + 1, ev.shared)
+            sub.func = self.outer.func
+            sub.self_name = self.outer.self_name
+            return sub.ev(self.node.body)
         sub = Evaluator(ev.repo, self.outer.module, env, None, ev.hooks,
                         ev.depth + 1, ev.shared)
         sub.func = self.outer.func
